@@ -1078,8 +1078,15 @@ class Parser:
     # before (the second, diagnostic pass, or a re-parse after backtracking) its MACRO_PARAM tokens are in the token
     # cache already and the switch must stay off, or it would swallow whatever the token source delivers next.
     def handle_func_macro_start(self, a: ast.expr) -> ast.expr:
-        if self._tokenizer.at_frontier():
-            self._tokenizer._call_macro = True
+        tokenizer = self._tokenizer
+        if not tokenizer.at_frontier() and tokenizer.reread_from_here():
+            # what was parsed from the re-read tokens is void: drop the memoized results that reach into them
+            here = tokenizer.mark()
+            for key in [k for k, (_, end) in self._cache.items() if k[0] >= here or end > here]:
+                del self._cache[key]
+        if tokenizer.at_frontier():
+            tokenizer._call_macro = True
+            tokenizer._raw_from.add(tokenizer.mark())
         return a
 
     def handle_with_macro_start(self, a: ast.withitem) -> ast.withitem:
